@@ -293,6 +293,11 @@ VJ = make_vtype('VJ', ['x'], cache=JsonCache())
 VN = make_vtype('VN', ['x'], cache=None)
 VPost = make_vtype('VPost', ['x'], post_init=True)
 VRewrite = make_rewrite_type()
+# module-level task types whose class names are not ASCII (valid Python identifiers)
+Vuni1 = make_vtype('Exp\u00e9rience', ['x'])
+Vuni2 = make_vtype('\u5b9f\u9a132', ['x'])
+globals()[Vuni1.__qualname__] = Vuni1
+globals()[Vuni2.__qualname__] = Vuni2
 def _vret(self):
     return self.x
 
